@@ -30,6 +30,20 @@ func (req *SrvReq) responded() bool {
 	return r
 }
 
+// Packs a reply into the request's buffer unless the request was already
+// answered. The test and the pack are one critical section with the marking
+// in Respond: a delayed second answer never writes a buffer that belongs to
+// the send goroutine or, recycled, to another request.
+func (req *SrvReq) packReply(pack func() error) (late bool, err error) {
+	req.Lock()
+	defer req.Unlock()
+	if (req.status & reqResponded) != 0 {
+		return true, nil
+	}
+	verifPoint("respond.guarded", req, 0, 0)
+	return false, pack()
+}
+
 // Packs an Rerror into the reply buffer. If the text does not fit (the
 // client negotiated a tiny msize), as much of it as fits is sent.
 func (req *SrvReq) packRerror(ename string, ecode uint32) {
@@ -51,19 +65,20 @@ func (req *SrvReq) packRerror(ename string, ecode uint32) {
 
 // Respond to the request with Rerror message
 func (req *SrvReq) RespondError(err interface{}) {
-	if req.responded() {
+	late, _ := req.packReply(func() error {
+		switch e := err.(type) {
+		case *Error:
+			req.packRerror(e.Error(), uint32(e.Errornum))
+		case error:
+			req.packRerror(e.Error(), uint32(EIO))
+		default:
+			req.packRerror(fmt.Sprintf("%v", e), uint32(EIO))
+		}
+		return nil
+	})
+	if late {
 		verifPoint("respond.late", req, 0, 0)
 		return
-	}
-	verifPoint("respond.guarded", req, 0, 0)
-
-	switch e := err.(type) {
-	case *Error:
-		req.packRerror(e.Error(), uint32(e.Errornum))
-	case error:
-		req.packRerror(e.Error(), uint32(EIO))
-	default:
-		req.packRerror(fmt.Sprintf("%v", e), uint32(EIO))
 	}
 
 	req.Respond()
@@ -71,13 +86,12 @@ func (req *SrvReq) RespondError(err interface{}) {
 
 // Respond to the request with Rversion message
 func (req *SrvReq) RespondRversion(msize uint32, version string) {
-	if req.responded() {
+	late, err := req.packReply(func() error { return PackRversion(req.Rc, msize, version) })
+	if late {
 		verifPoint("respond.late", req, 0, 0)
 		return
 	}
-	verifPoint("respond.guarded", req, 0, 0)
 
-	err := PackRversion(req.Rc, msize, version)
 	if err != nil {
 		req.RespondError(err)
 	} else {
@@ -87,13 +101,12 @@ func (req *SrvReq) RespondRversion(msize uint32, version string) {
 
 // Respond to the request with Rauth message
 func (req *SrvReq) RespondRauth(aqid *Qid) {
-	if req.responded() {
+	late, err := req.packReply(func() error { return PackRauth(req.Rc, aqid) })
+	if late {
 		verifPoint("respond.late", req, 0, 0)
 		return
 	}
-	verifPoint("respond.guarded", req, 0, 0)
 
-	err := PackRauth(req.Rc, aqid)
 	if err != nil {
 		req.RespondError(err)
 	} else {
@@ -103,13 +116,12 @@ func (req *SrvReq) RespondRauth(aqid *Qid) {
 
 // Respond to the request with Rflush message
 func (req *SrvReq) RespondRflush() {
-	if req.responded() {
+	late, err := req.packReply(func() error { return PackRflush(req.Rc) })
+	if late {
 		verifPoint("respond.late", req, 0, 0)
 		return
 	}
-	verifPoint("respond.guarded", req, 0, 0)
 
-	err := PackRflush(req.Rc)
 	if err != nil {
 		req.RespondError(err)
 	} else {
@@ -119,13 +131,12 @@ func (req *SrvReq) RespondRflush() {
 
 // Respond to the request with Rattach message
 func (req *SrvReq) RespondRattach(aqid *Qid) {
-	if req.responded() {
+	late, err := req.packReply(func() error { return PackRattach(req.Rc, aqid) })
+	if late {
 		verifPoint("respond.late", req, 0, 0)
 		return
 	}
-	verifPoint("respond.guarded", req, 0, 0)
 
-	err := PackRattach(req.Rc, aqid)
 	if err != nil {
 		req.RespondError(err)
 	} else {
@@ -135,13 +146,12 @@ func (req *SrvReq) RespondRattach(aqid *Qid) {
 
 // Respond to the request with Rwalk message
 func (req *SrvReq) RespondRwalk(wqids []Qid) {
-	if req.responded() {
+	late, err := req.packReply(func() error { return PackRwalk(req.Rc, wqids) })
+	if late {
 		verifPoint("respond.late", req, 0, 0)
 		return
 	}
-	verifPoint("respond.guarded", req, 0, 0)
 
-	err := PackRwalk(req.Rc, wqids)
 	if err != nil {
 		req.RespondError(err)
 	} else {
@@ -151,13 +161,12 @@ func (req *SrvReq) RespondRwalk(wqids []Qid) {
 
 // Respond to the request with Ropen message
 func (req *SrvReq) RespondRopen(qid *Qid, iounit uint32) {
-	if req.responded() {
+	late, err := req.packReply(func() error { return PackRopen(req.Rc, qid, iounit) })
+	if late {
 		verifPoint("respond.late", req, 0, 0)
 		return
 	}
-	verifPoint("respond.guarded", req, 0, 0)
 
-	err := PackRopen(req.Rc, qid, iounit)
 	if err != nil {
 		req.RespondError(err)
 	} else {
@@ -167,13 +176,12 @@ func (req *SrvReq) RespondRopen(qid *Qid, iounit uint32) {
 
 // Respond to the request with Rcreate message
 func (req *SrvReq) RespondRcreate(qid *Qid, iounit uint32) {
-	if req.responded() {
+	late, err := req.packReply(func() error { return PackRcreate(req.Rc, qid, iounit) })
+	if late {
 		verifPoint("respond.late", req, 0, 0)
 		return
 	}
-	verifPoint("respond.guarded", req, 0, 0)
 
-	err := PackRcreate(req.Rc, qid, iounit)
 	if err != nil {
 		req.RespondError(err)
 	} else {
@@ -183,13 +191,12 @@ func (req *SrvReq) RespondRcreate(qid *Qid, iounit uint32) {
 
 // Respond to the request with Rread message
 func (req *SrvReq) RespondRread(data []byte) {
-	if req.responded() {
+	late, err := req.packReply(func() error { return PackRread(req.Rc, data) })
+	if late {
 		verifPoint("respond.late", req, 0, 0)
 		return
 	}
-	verifPoint("respond.guarded", req, 0, 0)
 
-	err := PackRread(req.Rc, data)
 	if err != nil {
 		req.RespondError(err)
 	} else {
@@ -199,13 +206,12 @@ func (req *SrvReq) RespondRread(data []byte) {
 
 // Respond to the request with Rwrite message
 func (req *SrvReq) RespondRwrite(count uint32) {
-	if req.responded() {
+	late, err := req.packReply(func() error { return PackRwrite(req.Rc, count) })
+	if late {
 		verifPoint("respond.late", req, 0, 0)
 		return
 	}
-	verifPoint("respond.guarded", req, 0, 0)
 
-	err := PackRwrite(req.Rc, count)
 	if err != nil {
 		req.RespondError(err)
 	} else {
@@ -215,13 +221,12 @@ func (req *SrvReq) RespondRwrite(count uint32) {
 
 // Respond to the request with Rclunk message
 func (req *SrvReq) RespondRclunk() {
-	if req.responded() {
+	late, err := req.packReply(func() error { return PackRclunk(req.Rc) })
+	if late {
 		verifPoint("respond.late", req, 0, 0)
 		return
 	}
-	verifPoint("respond.guarded", req, 0, 0)
 
-	err := PackRclunk(req.Rc)
 	if err != nil {
 		req.RespondError(err)
 	} else {
@@ -231,13 +236,12 @@ func (req *SrvReq) RespondRclunk() {
 
 // Respond to the request with Rremove message
 func (req *SrvReq) RespondRremove() {
-	if req.responded() {
+	late, err := req.packReply(func() error { return PackRremove(req.Rc) })
+	if late {
 		verifPoint("respond.late", req, 0, 0)
 		return
 	}
-	verifPoint("respond.guarded", req, 0, 0)
 
-	err := PackRremove(req.Rc)
 	if err != nil {
 		req.RespondError(err)
 	} else {
@@ -247,13 +251,12 @@ func (req *SrvReq) RespondRremove() {
 
 // Respond to the request with Rstat message
 func (req *SrvReq) RespondRstat(st *Dir) {
-	if req.responded() {
+	late, err := req.packReply(func() error { return PackRstat(req.Rc, st, req.Conn.Dotu) })
+	if late {
 		verifPoint("respond.late", req, 0, 0)
 		return
 	}
-	verifPoint("respond.guarded", req, 0, 0)
 
-	err := PackRstat(req.Rc, st, req.Conn.Dotu)
 	if err != nil {
 		req.RespondError(err)
 	} else {
@@ -263,13 +266,12 @@ func (req *SrvReq) RespondRstat(st *Dir) {
 
 // Respond to the request with Rwstat message
 func (req *SrvReq) RespondRwstat() {
-	if req.responded() {
+	late, err := req.packReply(func() error { return PackRwstat(req.Rc) })
+	if late {
 		verifPoint("respond.late", req, 0, 0)
 		return
 	}
-	verifPoint("respond.guarded", req, 0, 0)
 
-	err := PackRwstat(req.Rc)
 	if err != nil {
 		req.RespondError(err)
 	} else {
